@@ -70,11 +70,13 @@ pub struct LogInput<'a> {
 	pub descends: u64,
 	pub ascends: u64,
 	pub alloc_hooks: u64,
+	/// sizes announced through `on_before_alloc_mem`, in order
+	pub allocs: Vec<usize>,
 }
 
 impl<'a> LogInput<'a> {
 	pub fn new(data: &'a [u8], known_len: bool) -> Self {
-		LogInput { data, pos: 0, known_len, delivered: 0, reads: 0, descends: 0, ascends: 0, alloc_hooks: 0 }
+		LogInput { data, pos: 0, known_len, delivered: 0, reads: 0, descends: 0, ascends: 0, alloc_hooks: 0, allocs: vec![] }
 	}
 }
 
@@ -99,8 +101,11 @@ impl Input for LogInput<'_> {
 	fn ascend_ref(&mut self) {
 		self.ascends += 1;
 	}
-	fn on_before_alloc_mem(&mut self, _size: usize) -> Result<(), Error> {
+	fn on_before_alloc_mem(&mut self, size: usize) -> Result<(), Error> {
 		self.alloc_hooks += 1;
+		if self.allocs.len() < 4096 {
+			self.allocs.push(size);
+		}
 		Ok(())
 	}
 }
